@@ -82,8 +82,8 @@ def other_level(impl, op):
 def classify(impl, op, code):
     """which family of rejected call this is (the attribute known findings are matched on)"""
     k = op[0]
-    if any(isinstance(a, (list, tuple)) and len(a) >= 2 and a[0] == 'd' for a in op) or k == 'setvaluedt':
-        return 'datatype-object'
+    if k == 'setvaluedt':
+        return 'value-datatype-object'
     if k in ('setvaluechain', 'setvalue'):
         return 'value-assignment'
     if k == 'setdatatype':
@@ -91,6 +91,18 @@ def classify(impl, op, code):
     if k in ('setattr', 'setindex', 'setlistindex') and other_level(impl, op):
         return 'replace-other-level'
     return 'other'
+
+
+def new_datatype_kind(impl, op):
+    """complex | base | none | varies: the kind of datatype a datatype change asks for"""
+    if op[0] != 'setdatatype':
+        return None
+    dt = op[2]
+    if dt is None:
+        return 'none'
+    if dt == 'varies':
+        return 'varies'
+    return 'base' if impl.lib.is_base_datatype(dt) else 'complex'
 
 
 def catalogue(rng, g):
@@ -131,6 +143,7 @@ def catalogue(rng, g):
     if flds:
         f = rng.choice(flds)
         ops.append(['setdatatype', f, rng.choice(['CE', 'CX', 'XPN'])])   # refused on a populated field (F9)
+        ops.append(['setdatatype', f, rng.choice(['ST', 'ID', None, 'varies'])])   # ... to a base datatype / None / varies
         ops.append(['add', f, x])                                    # wrong class
         ops.append(['setattr', f, ['nosuch_1'], ['t', 'a']])
     return ops
@@ -164,6 +177,7 @@ def main(argv=None):
                     state['els'] = els
                     state['before'] = [shape(x, impl.ec) for x in els]
                     state['family'] = classify(impl, op, None)
+                    state['ndk'] = new_datatype_kind(impl, op)
                     return
                 stats['steps'] += 1
                 code = data[0]
@@ -179,8 +193,8 @@ def main(argv=None):
                     j = [a != b for a, b in zip(after, state['before'])].index(True)
                     run.fail('not-atomic', 'a rejected call changed its target: %s -> %s'
                              % (state['before'][j][0][:120], after[j][0][:120]),
-                             family=fam, version=v, level=lvl, outcome=code, operation=op[0],
-                             ops=g.ops + [op], step=kk)
+                             family=fam, new_datatype_kind=state['ndk'], version=v, level=lvl, outcome=code,
+                             operation=op[0], ops=g.ops + [op], step=kk)
             g.run(hook)
             for op in catalogue(rng, g):
                 stats['catalogue_steps'] += 1
@@ -195,7 +209,7 @@ def main(argv=None):
             if len(samples) < 4 and k % 71 == 3:
                 samples.append({'version': v, 'level': lvl, 'ops': g.ops, 'codes': g.codes})
         all_cases[v] = cases
-    H.shrink_oracle_failures(run, oracle_on_history, ('family',))
+    H.shrink_oracle_failures(run, oracle_on_history, ('family', 'new_datatype_kind'))
     run.log('implementation side: %d steps, %d raising calls checked, %d changed their target'
             % (stats['steps'], stats['raising_calls_checked'], len(run.failures)))
     evaluated = steps = 0
@@ -236,6 +250,7 @@ def oracle_on_history(run, v, ops):
             state['els'] = els
             state['before'] = [shape(x, impl.ec) for x in els]
             state['family'] = classify(impl, op, None)
+            state['ndk'] = new_datatype_kind(impl, op)
             return
         if data[0] in (0, 50):
             return
@@ -243,8 +258,8 @@ def oracle_on_history(run, v, ops):
         if after != state['before']:
             j = [a != b for a, b in zip(after, state['before'])].index(True)
             run.fail('not-atomic', 'a rejected call changed its target: %s -> %s'
-                     % (state['before'][j][0][:120], after[j][0][:120]), family=state['family'], version=v,
-                     outcome=data[0], operation=op[0], ops=ops[:kk + 1], step=kk)
+                     % (state['before'][j][0][:120], after[j][0][:120]), family=state['family'],
+                     new_datatype_kind=state['ndk'], version=v, outcome=data[0], operation=op[0], ops=ops[:kk + 1], step=kk)
     H.run_history(v, ops, hook)
 
 
